@@ -289,6 +289,35 @@ def run(prog, rep):
                                 is_clsparam = t.value.id == "cls" and any(norm(d) == "classmethod" for d in f.node.decorator_list)
                                 if (base_cls is not None and not prog.is_enum(base_cls)) or is_clsparam:
                                     bad = (f, x, f"`{norm(head(x))[:70]}` stores on the class `{t.value.id}`, not on an instance")
+        # (a) a class whose instances live at module level (the codec singletons i32, f32, SegmentData ..) keeps no state across calls:
+        #     a buffer stored on such an instance and handed out is one buffer for every block decoded through it
+        # (b) a method does not store state on an object it was GIVEN (an item added to a block is shared by every block holding it)
+        #     nor edits the private container of another instance
+        if not bad:
+            singleton_classes = {v_.func.id for v_ in m.assigns.values() if isinstance(v_, ast.Call) and isinstance(v_.func, ast.Name) and v_.func.id in m.classes}
+            singleton_classes |= {c2.name for m2 in prog.modules.values() for v_ in m2.assigns.values() if isinstance(v_, ast.Call) and isinstance(v_.func, ast.Name)
+                                  for c2 in [prog.resolve_class(m2, v_.func.id)] if c2 is not None and c2.module is m}
+            for c in m.classes.values():
+                for f in c.all_funcs():
+                    sn = f.self_name or "self"
+                    params = {a.arg for a in f.node.args.args + f.node.args.kwonlyargs} - {sn, "cls"}
+                    rebound = {t.id for s_ in walk_no_nested(f.node) for t in ast.walk(s_) if isinstance(t, ast.Name) and isinstance(t.ctx, ast.Store)}
+                    for x in walk_no_nested(f.node):
+                        tgs = x.targets if isinstance(x, ast.Assign) else [x.target] if isinstance(x, (ast.AugAssign, ast.AnnAssign)) and getattr(x, "value", None) is not None else []
+                        for t in tgs:
+                            if isinstance(t, ast.Attribute) and isinstance(t.value, ast.Name):
+                                if c.name in singleton_classes and t.value.id == sn and f.name != "__init__":
+                                    bad = (f, x, f"`{norm(head(x))[:60]}` keeps state on an instance of {c.name}, whose instances are module-level objects used by every block;")
+                                if t.value.id in params and t.value.id not in rebound and f.kind in ("method", "setter") and f.name not in ("__eq__", "__init__"):
+                                    bad = (f, x, f"`{norm(head(x))[:60]}` stores state on the object passed as `{t.value.id}` (an item can be held by several blocks: what one block writes on it, the others read);")
+                        if isinstance(x, ast.Call) and isinstance(x.func, ast.Attribute) and x.func.attr in MUT_METHODS and isinstance(x.func.value, ast.Attribute) \
+                                and x.func.value.attr.startswith("_") and isinstance(x.func.value.value, ast.Name) and x.func.value.value.id not in (sn, "cls") \
+                                and f.kind in ("method", "setter") and x.func.value.value.id not in m.assigns:
+                            root = x.func.value.value.id
+                            local_new = any(isinstance(s_, ast.Assign) and any(isinstance(t, ast.Name) and t.id == root for t in s_.targets) and isinstance(s_.value, ast.Call)
+                                            and isinstance(s_.value.func, ast.Name) and prog.resolve_class(m, s_.value.func.id) is not None for s_ in walk_no_nested(f.node))
+                            if not local_new:
+                                bad = (f, x, f"`{norm(x)[:60]}` edits the private container of another object (`{root}`) from a method of {c.name};")
         # module-level stateful objects (iterators, counters, generators, deques): consuming one inside a function is shared state
         stateful = {}
         for name_, v_ in m.assigns.items():
